@@ -42,6 +42,7 @@ inductive Opd where
   | ext (name : String)
   | none
   | bad
+  | up (i : Nat)            -- `Value::UpValue(i)` in a function's `upindexes`: upvalue `i` of the closure that CREATES the new one
 deriving Repr, DecidableEq, Inhabited
 
 inductive UnOp | negf | absf | sinf | cosf | logf | sqrtf | negi | absi | not | ftoi | itof | itob
@@ -208,6 +209,7 @@ def regOf (fr : Frame) : Opd → Except Err Region
   | .ext _ => .error (.unsupported "external function used as a plain operand")
   | .none => .error (.stuck "operand none")
   | .bad => .error (.unsupported "operand kind")
+  | .up _ => .error (.unsupported "upvalue operand outside an upvalue list")
 
 def readOpd (s : RSt) (o : Opd) (n : Nat) : Except Err (List UInt64) := do
   let rg ← regOf s.fr o
@@ -356,8 +358,21 @@ def cellFor (s : RSt) (rg : Region) : RSt × Nat :=
     ({ fr := { s.fr with upmap := s.fr.upmap ++ [(rg.addr, id)] },
        g := { s.g with cells := s.g.cells.push (.opn rg.addr rg.size) } }, id)
 
+def curCell (s : RSt) (i : Nat) : Except Err Nat :=
+  match s.fr.clo with
+  | none => .error (.stuck "upvalue access outside a closure")
+  | some c =>
+    match (s.g.clos[c]?).bind (·.ups[i]?) with
+    | some id => .ok id
+    | none => .error (.stuck "upvalue index out of range")
+
 def cellsFor (s : RSt) : List Opd → Except Err (RSt × List Nat)
   | [] => .ok (s, [])
+  | .up i :: os => do
+    -- the creator's own upvalue (`FuncProto::outer_upindexes`, /repo 89c075d): the new closure SHARES that cell
+    let id ← curCell s i
+    let (s2, ids) ← cellsFor s os
+    .ok (s2, id :: ids)
   | o :: os => do
     let rg ← regOf s.fr o
     let (s1, id) := cellFor s rg
@@ -400,14 +415,6 @@ def closeOffs (s : RSt) (rg : Region) : List Nat → Except Err RSt
     let ws ← readN s.g.mem (rg.addr + off) 1
     let g ← closeHandle s.g (ws.headD 0)
     closeOffs { s with g := g } rg offs
-
-def curCell (s : RSt) (i : Nat) : Except Err Nat :=
-  match s.fr.clo with
-  | none => .error (.stuck "upvalue access outside a closure")
-  | some c =>
-    match (s.g.clos[c]?).bind (·.ups[i]?) with
-    | some id => .ok id
-    | none => .error (.stuck "upvalue index out of range")
 
 /-! ## one instruction -/
 
